@@ -251,8 +251,11 @@ RECURSIVE NoWild(_)
 NoWild(s) == /\ ~HasFieldWild(s) /\ ~HasDimWild(s)
              /\ \A i \in DOMAIN s.Sources : s.Sources[i].k = "SubQuery" => NoWild(s.Sources[i].Statement)
 
-\* expanding an expanded statement changes nothing
-InvIdempotent == OkCase => Expand(out.want, Sch(out.sid)) = out.want
+\* expanding an expanded statement changes nothing - unless a wildcard produced a column the schema has no type for
+\* ( * over the subquery `SELECT a AS host ...` where no measurement has a field a): written out, that column is an
+\* untyped reference like any other and "receives its schema type" from whichever source knows the name
+UntypedColumn(s) == \E i \in DOMAIN FieldsOf(s) : FieldsOf(s)[i].Expr.k = "VarRef" /\ TypeOf(FieldsOf(s)[i].Expr) = ""
+InvIdempotent == OkCase /\ ~UntypedColumn(out.want) => Expand(out.want, Sch(out.sid)) = out.want
 \* no wildcard is left (whatever the schema), unless it stands in an unspecified position
 InvNoWildLeft == OkCase /\ ~HasUnspec(out.stmt) => NoWild(out.want)
 \* an error is predicted only for unspecified positions
